@@ -208,6 +208,24 @@ def r2(ctx):
                     got[k.arg] = ctx.repo.try_fold(m, v.slice)
         # (a constructor call whose fields are not spelled as keyword = part[i] is decided by the witness datagrams below alone)
         ctx.check(got == s["idx"] or not got, R, f"{gen}:decode:field-positions", m, dec.node, f"fields from parts {s['idx']}", str(got))
+        # two answers are one entry only when they are equal in every field: the result is a set, so equality and hash of the
+        # response decide which consoles survive (a field left out of the comparison merges two consoles / two addresses)
+        rci = m.get_class(f"{cls}DiscoveryResponse")
+        ctx.require(rci is not None, f"{m.relpath}: {cls}DiscoveryResponse vanished")
+        probs = []
+        for dnode in rci.node.decorator_list:
+            if isinstance(dnode, ast.Call):
+                for k in dnode.keywords:
+                    if k.arg in ("eq", "unsafe_hash", "order") and not (k.arg == "eq" and isinstance(k.value, ast.Constant) and k.value.value is True):
+                        probs.append(f"@dataclass({k.arg}=...)")
+        for st_ in rci.node.body:
+            if isinstance(st_, (ast.FunctionDef, ast.AsyncFunctionDef)) and st_.name in ("__eq__", "__hash__", "__ne__"):
+                probs.append(f"own {st_.name}")
+            if isinstance(st_, ast.AnnAssign) and isinstance(st_.value, ast.Call) and (dotted(st_.value.func) or "").split(".")[-1] == "field":
+                for k in st_.value.keywords:
+                    if k.arg in ("compare", "hash") and not (isinstance(k.value, ast.Constant) and k.value.value is True):
+                        probs.append(f"{norm_text(st_.target)}: field({k.arg}={norm_text(k.value)})")
+        ctx.check(rci.is_dataclass and not probs, R, f"{gen}:response-equality-covers-every-field", m, rci.node, "the response is a dataclass whose generated equality and hash compare every field (host, serial, id, name)", "; ".join(probs) or "not a dataclass")
         lenient = [c for c in ast.walk(dec.node) if isinstance(c, ast.Call) and isinstance(c.func, ast.Attribute) and c.func.attr == "decode" and any(k.arg == "errors" for k in c.keywords)]
         ctx.check(not lenient, R, f"{gen}:decode:strict-text", m, (lenient[0] if lenient else dec.node), "text fields are decoded strictly: a datagram with invalid UTF-8 adds nothing (it must not become an entry that ends the search)", norm_text(lenient[0])[:100] if lenient else "")
         mt = m.get_class(f"{cls}DiscoveryDecoder").methods.get("match")
@@ -354,6 +372,12 @@ def r4(ctx):
         elif isinstance(x, ast.Call) and isinstance(x.func, ast.Attribute) and x.func.attr in ("add", "append", "update", "extend", "setdefault", "insert") and (dotted(x.func.value) or "").startswith("self.") and "task" not in (dotted(x.func.value) or "").lower():
             stores.append(x)
     ctx.check(not stores, R, "datagram_received:keeps-no-state", m, (stores[0] if stores else f.node), "datagram_received stores nothing but the handle of the callback task: every datagram is decided on its own content", f"`{norm_text(stores[0])[:70]}` at line {stores[0].lineno}" if stores else "")
+    # the event loop calls the protocol from inside transport.sendto() (error_received) and from its reader callback: an exception
+    # raised by one of these callbacks surfaces in search()/discover() (send errors) or is lost with the datagram.  None of them raises.
+    pci = m.get_class("_DiscoveryDecodeProtocol")
+    ctx.require(pci is not None, f"{m.relpath}: _DiscoveryDecodeProtocol vanished")
+    praise = [(mn, x) for mn, mnode in pci.methods.items() if mn != "__init__" for x in walk_no_nested(mnode) if isinstance(x, ast.Raise)]
+    ctx.check(not praise, R, "protocol-callbacks-never-raise", m, (praise[0][1] if praise else pci.node), "no callback of the discovery protocol (datagram_received, error_received, connection_lost, ...) raises: a send or receive error on the discovery socket never reaches the caller of discover()", f"{praise[0][0]}: `{norm_text(praise[0][1])[:50]}`" if praise else "")
     tasks = f.calls("create_task")
     it = f.tests(lambda e: isinstance(e, ast.Call) and dotted(e.func) == "isinstance" and len(e.args) == 2 and dotted(e.args[1]) == "self._response_type")
     ok = bool(tasks) and bool(it) and all(g.dominates(f.branch(t, "true").id, n.id) for t in it for n, _ in tasks)
